@@ -37,7 +37,11 @@ func sigShapes() []sigShape {
 }
 
 func reducedShapes() []sigShape {
-	return []sigShape{{}, {1, 1}, {2, 3}, {5, 5}, {16, 17}}
+	return []sigShape{{}, {1, 1}, {2, 3}, {5, 5}, {15, 16}}
+}
+
+func tinyShapes() []sigShape {
+	return []sigShape{{}, {2, 3}, {15, 16}}
 }
 
 type attrMix struct {
@@ -71,6 +75,48 @@ func attrMixes(thorough bool) []attrMix {
 
 var feeStates = []string{"preamble", "exec-min", "exec-frac"}
 
+// feePlan is the enumeration of one (state, first signer, attribute mix) job:
+// the shapes of the second and third signer and the script lengths.
+//
+//	quick:    no attributes: second signer of every shape, third of 3 shapes (with a second of the same 3);
+//	          with attributes: second signer of 5 shapes; script lengths 1, 252, 253, 65535 for a single signer, 1 otherwise
+//	thorough: second signer of every shape, second x third of 5 x 5 shapes, all script lengths everywhere
+func (e *env) feePlan(first sigShape, mix attrMix) (combos [][]sigShape, lensOf func(cb []sigShape) []int) {
+	all := sigShapes()
+	combos = append(combos, []sigShape{first})
+	if e.thor {
+		for _, s := range all {
+			combos = append(combos, []sigShape{first, s})
+		}
+		for _, s := range reducedShapes() {
+			for _, t := range reducedShapes() {
+				combos = append(combos, []sigShape{first, s, t})
+			}
+		}
+		return combos, func([]sigShape) []int { return []int{1, 252, 253, transaction.MaxScriptLength} }
+	}
+	if mix.Name == "none" {
+		for _, s := range all {
+			combos = append(combos, []sigShape{first, s})
+		}
+		for _, s := range tinyShapes() {
+			for _, t := range tinyShapes() {
+				combos = append(combos, []sigShape{first, s, t})
+			}
+		}
+	} else {
+		for _, s := range reducedShapes() {
+			combos = append(combos, []sigShape{first, s})
+		}
+	}
+	return combos, func(cb []sigShape) []int {
+		if len(cb) == 1 {
+			return []int{1, 252, 253, transaction.MaxScriptLength}
+		}
+		return []int{1}
+	}
+}
+
 func (e *env) runFee() map[string]any {
 	type job struct {
 		st    *state
@@ -78,14 +124,6 @@ func (e *env) runFee() map[string]any {
 		mix   attrMix
 	}
 	all := sigShapes()
-	third := reducedShapes()
-	if e.thor {
-		third = all
-	}
-	lens := []int{1, 252, 253}
-	if e.thor {
-		lens = append(lens, transaction.MaxScriptLength)
-	}
 	mixes := attrMixes(e.thor)
 	var jobs []job
 	for _, sn := range feeStates {
@@ -109,23 +147,9 @@ func (e *env) runFee() map[string]any {
 			factors[j.st.Name] = rn.n.BC.GetBaseExecFee()
 			e.f.mu.Unlock()
 		}
-		var combos [][]sigShape
-		combos = append(combos, []sigShape{j.first})
-		for _, s := range all {
-			combos = append(combos, []sigShape{j.first, s})
-		}
-		second := third
-		for _, s := range second {
-			for _, t := range third {
-				combos = append(combos, []sigShape{j.first, s, t})
-			}
-		}
+		combos, lensOf := e.feePlan(j.first, j.mix)
 		for _, cb := range combos {
-			ls := lens
-			if len(cb) == 1 && !e.thor {
-				ls = append(append([]int{}, lens...), transaction.MaxScriptLength)
-			}
-			for _, l := range ls {
+			for _, l := range lensOf(cb) {
 				if e.r.Expired() {
 					return
 				}
@@ -140,7 +164,8 @@ func (e *env) runFee() map[string]any {
 	for _, m := range mixes {
 		mn = append(mn, m.Name)
 	}
-	return map[string]any{"signer_shapes": sn, "third_signer_shapes": len(third), "attribute_mixes": mn, "script_lengths": lens, "exec_fee_factors_pico": factors, "jobs": len(jobs)}
+	return map[string]any{"signer_shapes": sn, "attribute_mixes": mn, "script_lengths": []int{1, 252, 253, transaction.MaxScriptLength}, "exec_fee_factors_pico": factors, "jobs": len(jobs),
+		"plan": "quick: no attributes: second signer of every shape, third of 3 shapes; with attributes: second signer of 5 shapes; all script lengths for a single signer. thorough: second of every shape, second x third of 5 x 5 shapes, all script lengths"}
 }
 
 // feeCase: with the calculator's network fee the transaction is accepted, with
@@ -189,6 +214,7 @@ func (rn *runner) feeCase(cb []sigShape, mix attrMix, scriptLen int) {
 		v := rn.submit(path, canon, false)
 		res[path] = v
 		e.count.fee.Inc()
+		e.out("fee", "exact->"+v.Class)
 		e.r.Outcome("fee:exact->" + v.Class)
 		if !v.OK {
 			e.f.add(fmt.Sprintf("fee:exact-rejected:%s:%s:%s", shapeKey, rn.st.Name, path), rec(path, tx, "accepted", v))
@@ -206,6 +232,7 @@ func (rn *runner) feeCase(cb []sigShape, mix attrMix, scriptLen int) {
 			v = rn.submit(path, less.Bytes(), false)
 		}
 		e.count.fee.Inc()
+		e.out("fee", "exact-1->"+v.Class)
 		e.r.Outcome("fee:exact-1->" + v.Class)
 		switch {
 		case v.OK:
@@ -216,7 +243,11 @@ func (rn *runner) feeCase(cb []sigShape, mix attrMix, scriptLen int) {
 	}
 	// spellings: hash and size for every transaction, verdicts for the
 	// single-signer ones (quick) / up to two signers (thorough)
-	withVerdict := len(cb) == 1 || (e.thor && len(cb) == 2)
+	withVerdict := len(cb) == 1 && (e.thor || scriptLen == 1 || scriptLen == transaction.MaxScriptLength)
+	withVerdict = withVerdict || (e.thor && len(cb) == 2 && scriptLen == 1)
+	if !e.thor && len(cb) == 3 {
+		return
+	}
 	base := caseRec{Sub: "encoding", State: rn.st.Name, Rule: "fee-" + mix.Name, Shape: name}
 	rn.encodings(base, canon, res, withVerdict)
 }
